@@ -90,6 +90,7 @@ def run_cases(d, exprs, prelude_extra="", imports="", timeout=900, extra_env=Non
     buffered output, which would blame the wrong case), and a dead process is restarted after the guilty case"""
     res = [None] * len(exprs)
     os.makedirs(B.SCRATCH, exist_ok=True)
+    path = os.path.join(B.SCRATCH, "c01_cases_%d.scm" % os.getpid())
     todo = [(lo, min(len(exprs), lo + chunk)) for lo in range(0, len(exprs), chunk)]
     crashes = 0
     while todo:
@@ -101,7 +102,6 @@ def run_cases(d, exprs, prelude_extra="", imports="", timeout=900, extra_env=Non
         body = [scm.PRELUDE, imports, FLUSH_CASE, prelude_extra]
         body += ["(verif-fcase %d %s)" % (i, exprs[i]) for i in range(lo, hi)]
         body.append('(write-string "DONE")(newline)')
-        path = os.path.join(B.SCRATCH, "c01_cases_%d.scm" % os.getpid())
         open(path, "w").write("\n".join(body))
         try:
             r = B.run_chibi(d, [path], timeout=timeout, extra_env=extra_env)
@@ -126,6 +126,10 @@ def run_cases(d, exprs, prelude_extra="", imports="", timeout=900, extra_env=Non
             crashes += 1
             if bad + 1 < hi:
                 todo.insert(0, (bad + 1, hi))
+    try:
+        os.unlink(path)
+    except OSError:
+        pass
     return res
 
 
@@ -314,7 +318,7 @@ def run(ctx):
     rejected = {t["names"][i] for i, s in enumerate(safe) if s != "1"}
     if rejected:
         ctx.note("entries rejected by entry_safe: %s" % sorted(rejected))
-    n_per = 150 if not ctx.thorough else 4000
+    n_per = 150 if not ctx.thorough else 1200
     cases = []
     for prim in PRIMS:
         n = n_per * (4 if PRIMS[prim][0] in rejected else 1)
@@ -411,7 +415,7 @@ def run(ctx):
         if n < len(exprs) and meta[n] is not None:
             ctx.sample(dict(kind="opcode", expr=exprs[n], table_guard=mo_run[n] if n < len(mo_run) else None, impl=io[n]))
     t0 = time.time()
-    prims_stream(ctx, exe, d, rng, tconst["vals"], 700 if not ctx.thorough else 30000)
+    prims_stream(ctx, exe, d, rng, tconst["vals"], 700 if not ctx.thorough else 15000)
     ph["prims_stream"] = round(time.time() - t0, 1)
     t0 = time.time()
     stack_stream(ctx, exe, d, rng, tconst["vals"])
@@ -456,7 +460,7 @@ def run_harness(emb, d, lines):
     res = [None] * len(lines)
     lo = 0
     while lo < len(lines):
-        r = subprocess.run([emb], input="\n".join(lines[lo:]) + "\n", capture_output=True, text=True,
+        r = subprocess.run([emb], input="\n".join(lines[lo:]) + "\n", capture_output=True, encoding="utf-8", errors="replace",
                            env=B.chibi_env(d, ASAN_ENV), timeout=900)
         out = r.stdout.split("\n")
         if out and out[-1] == "":
@@ -601,7 +605,7 @@ def prims_stream(ctx, exe, d, rng, consts, n):
         J.append(dict(f="eval", prog=p_))
     # malformed-source stream: byte mutations of small sources that use every lexical form, fed to the reader alone
     # and to read+eval; the answer must be a value or an exception object and the context must survive
-    for src in malformed_sources(rng, 300 if not ctx.thorough else 20000):
+    for src in malformed_sources(rng, 300 if not ctx.thorough else 6000):
         f_ = rng.choice(["read", "read", "eval"])
         if b"loop" in src or b"(f " in src or b"define-syntax" in src:
             f_ = "read"        # mutated loops may not terminate: only the reader sees them
